@@ -25,6 +25,7 @@ func drawTree(rt *rapid.T, label string, small bool) *gmime.Tree {
 		SimpleGroups:          kf.Listed("C12-group-members-dropped"),
 		NoDelimiterPadding:    kf.Listed("C12-delimiter-transport-padding"),
 		NoContentTypeComments: kf.Listed("C12-content-type-comment"),
+		UnclosedNested:        true,
 	}
 
 	// 0..13 small, 14..16 around 64 KiB, 17..18 around the 256 KiB block, 19 up to 3 blocks
